@@ -7,6 +7,7 @@ import (
 	"fmt"
 	"sort"
 	"strings"
+	"testing/synctest"
 	"time"
 
 	sdcpb "github.com/sdcio/sdc-protos/sdcpb"
@@ -88,7 +89,115 @@ type mirrorEntry struct {
 	path  world.Path
 }
 
+// runC13Echo: a history builds a device configuration through the real transaction pipeline; then the device runs a full re-sync
+// cycle (start, its WHOLE configuration in a device-native format through the real converters, end) into the real Datastore.Sync.
+// After the prune the running store must hold exactly what the device holds: a leaf the conversion loses or misplaces is pruned
+// or appears at a wrong path. Some drift is applied to the device first so that the cycle has something to repair.
+func runC13Echo(rc *sim.RunCtx) {
+	t := rc.T
+	rc.Probe("mode-echo-cycle")
+	h, err := NewHist(rc, HistOpts{Profiles: []string{"core", "presence"}, MinTx: 1, MaxTx: 5, Oracles: map[string]bool{},
+		Sync: &config.Sync{Validate: true, Buffer: 256, WriteWorkers: 1, Config: []*config.SyncProtocol{{Name: "cfg", Protocol: "gnmi", Mode: "on-change"}}}})
+	if err != nil {
+		rc.HarnessErr("world: %v", err)
+		return
+	}
+	w := h.W
+	defer w.Close()
+	var syncCh chan *target.SyncUpdate
+	ready := make(chan struct{})
+	w.Dev.SyncFn = func(ctx context.Context, cfg *config.Sync, c chan *target.SyncUpdate) {
+		syncCh = c
+		close(ready)
+		<-ctx.Done()
+	}
+	sctx, scancel := context.WithCancel(w.Ctx)
+	defer scancel()
+	go w.DS.Sync(sctx)
+	<-ready
+	n := tierLen(rc, h.Ops)
+	for s := 0; s < n; s++ {
+		h.AdvanceClock()
+		h.Step(s)
+	}
+	// drift on the device (not reported yet): change or remove some leaves
+	keys := w.Dev.State.Keys()
+	for i := 0; i < t.Choose(3) && len(keys) > 0; i++ {
+		k := keys[t.Choose(len(keys))]
+		l := w.Dev.State[k]
+		if nd := w.SI.Node(l.Path); nd == nil || nd.Kind == world.KContainer || nd.IsKeyLeaf() {
+			continue
+		}
+		if t.Bool(1, 2) {
+			delete(w.Dev.State, k)
+			rc.Scenario("drift: device lost %s", k)
+		} else {
+			for _, sl := range h.G.Uni {
+				if sl.Path.String() == k {
+					ml := NewMLeaf(w.SI, sl.Path, sl.Lex[t.Choose(len(sl.Lex))])
+					w.Dev.State[k] = &world.Leaf{Path: ml.Path, Abs: ml.Abs}
+					rc.Scenario("drift: device has %s = %s", k, ml.Lex)
+				}
+			}
+		}
+	}
+	style := deviceEchoStyles[t.Choose(len(deviceEchoStyles))]
+	ns, err := deviceEcho(t, w, w.Dev.State, style)
+	if err != nil {
+		rc.HarnessErr("echo: %v", err)
+		return
+	}
+	rc.Scenario("re-sync cycle: %d leaves as %s in %d notifications", len(w.Dev.State), style, len(ns))
+	rc.Probe("echo-" + style)
+	syncCh <- &target.SyncUpdate{Start: true}
+	for _, nf := range ns {
+		syncCh <- &target.SyncUpdate{Update: nf}
+	}
+	syncCh <- &target.SyncUpdate{End: true}
+	synctest.Wait()
+	time.Sleep(2 * time.Second)
+	synctest.Wait()
+	rc.Step()
+	rc.NonTrivial()
+	rc.SigAdd(fmt.Sprintf("echo|%s|%d", style, len(ns)))
+	dump, derr := w.DumpConfig()
+	if derr != nil {
+		rc.HarnessErr("dump: %v", derr)
+		return
+	}
+	run := map[string]string{}
+	runPath := map[string]world.Path{}
+	for _, e := range dump {
+		run[e.Path.String()] = world.NormAbs(e.Abs)
+		runPath[e.Path.String()] = e.Path
+	}
+	f := map[string]string{"style": style, "workers": "1"}
+	for _, k := range w.Dev.State.Keys() {
+		l := w.Dev.State[k]
+		if nd := w.SI.Node(l.Path); nd != nil && nd.Kind == world.KContainer {
+			continue // whether a bare presence container is reported as an entry of its own is the device's business
+		}
+		if got, ok := run[k]; !ok {
+			rc.Report(sim.Item{Prop: "C13", Clause: "C13.echo-missing", Fields: f, Detail: fmt.Sprintf("after the re-sync cycle (%s) the running store lacks %s = %s which the device holds and reported", style, k, world.NormAbs(l.Abs))})
+		} else if got != world.NormAbs(l.Abs) {
+			rc.Report(sim.Item{Prop: "C13", Clause: "C13.echo-wrong-value", Fields: f, Detail: fmt.Sprintf("after the re-sync cycle (%s) the running store holds %s = %s, the device holds %s", style, k, got, world.NormAbs(l.Abs))})
+		}
+	}
+	for k, v := range run {
+		if _, ok := w.Dev.State[k]; !ok {
+			if nd := w.SI.Node(runPath[k]); nd != nil && nd.Kind == world.KContainer {
+				continue
+			}
+			rc.Report(sim.Item{Prop: "C13", Clause: "C13.echo-stale", Fields: f, Detail: fmt.Sprintf("after the re-sync cycle (%s) the running store still holds %s = %s which the device does not hold", style, k, v)})
+		}
+	}
+}
+
 func runC13(rc *sim.RunCtx) {
+	if rc.T.Choose(4) == 3 {
+		runC13Echo(rc)
+		return
+	}
 	t := rc.T
 	workers := []int64{1, 2, 16}[t.Choose(3)]
 	buffer := []int64{1, 8, 10000}[t.Choose(3)]
@@ -361,7 +470,7 @@ func runC13(rc *sim.RunCtx) {
 func init() {
 	Register(&sim.Check{
 		ID: "C13", Level: "exploration", Run: runC13,
-		Rule: "a scripted device pushes 4-13 (thorough up to 27) sync messages - re-sync cycles (start/notifications/end), on-change updates and deletes (leaf, list entry, container; keys a/ab/b so that names extend one another), repeated writes to the same path, JSON blobs, state leaves - into the real Datastore.Sync with write workers 1/2/16, buffer 1/8/10000, sync validation on/off. Every cache Modify of a sync worker parks in the cache decorator; the seeded scheduler chooses the completion order (including writes of an older notification landing after a newer one and after the prune). After quiescence CONFIG and STATE are compared with a sequential running-mirror model. Non-trivial = deletes or close-by writes to one path with >1 worker; distinct = configuration + released-task sequence.",
+		Rule: "a scripted device pushes 4-13 (thorough up to 27) sync messages - re-sync cycles (start/notifications/end), on-change updates and deletes (leaf, list entry, container; keys a/ab/b so that names extend one another), repeated writes to the same path, JSON blobs, state leaves - into the real Datastore.Sync with write workers 1/2/16, buffer 1/8/10000, sync validation on/off. Every cache Modify of a sync worker parks in the cache decorator; the seeded scheduler chooses the completion order (including writes of an older notification landing after a newer one and after the prune). After quiescence CONFIG and STATE are compared with a sequential running-mirror model. Notifications carry 1-3 deletes over config and state paths. Echo-cycle leg (a quarter of the runs): a history builds a device configuration, drift is applied on the device, then the device runs a full re-sync cycle (start, its whole configuration in a native gNMI or NETCONF format through the real converters, end); after the prune the running store must hold exactly what the device holds. Non-trivial = deletes or close-by writes to one path with >1 worker; distinct = configuration + released-task sequence.",
 		Real: append(append([]string{}, realCore...), "pkg/datastore Sync / storeSyncMsg", "pkg/utils converter (notification conversion)"), Stub: append(append([]string{}, stubCore...), "device Sync stream (scripted notifications pushed into the sync channel)"),
 		RequiredProbes: []string{"delete-notification", "resync-cycle", "same-path-writes-close", "json-blob-with-delete"}, MapOrderSensitive: true,
 		QuickSeconds: 30, ThoroughSeconds: 480,
